@@ -28,8 +28,8 @@ Theorem C29_json_terminates : forall p, well_founded (fun s' s => exists l, jste
 Proof. exact json_wf. Qed.
 Print Assumptions C29_json_terminates.
 
-(* ... and no run from the initial state is longer than 10 n + 13 steps. *)
-Theorem C29_json_run_bound : forall p tr s, jrun p (jinit p) tr = Some s -> length tr <= 10 * jp_n p + 13.
+(* ... and no run from the initial state is longer than 10 n + 23 steps. *)
+Theorem C29_json_run_bound : forall p tr s, jrun p (jinit p) tr = Some s -> length tr <= 10 * jp_n p + 23.
 Proof. exact json_run_bound. Qed.
 Print Assumptions C29_json_run_bound.
 
